@@ -131,7 +131,9 @@ def work(arg):
     return u
 
 
-RULE_CONFIGS = [("base", {}), ("noskipws", {"skipws": False}), ("ws-space", {"ws": " "})]
+RULE_CONFIGS = [("base", {}), ("noskipws", {"skipws": False}), ("ws-space", {"ws": " "}),
+                # skipping off globally with a custom whitespace set: only observable where a rule switches skipping back on
+                ("noskipws+ws-space", {"skipws": False, "ws": " "})]
 
 
 def run_rules_grammar(label, grammar, tier, u, cfgs=RULE_CONFIGS):
@@ -144,6 +146,8 @@ def run_rules_grammar(label, grammar, tier, u, cfgs=RULE_CONFIGS):
         joiners.append(" #z\n" if "#" in cm[0][2][1] else "/*z*/")
     toks = list(gramgen.inputs(alpha, 3, 70 if tier == "quick" else 160))
     for cfgname, cfg in cfgs:
+        if cfgname == "noskipws+ws-space" and not any(r[1].get("skipws") is True for r in grammar):
+            continue
         interp, mm, err = diff.compile_both(grammar, cfg)
         gid = ["rules", gtext, cfgname]
         if err is not None:
